@@ -3,7 +3,7 @@
 
 use crate::gen::{self, Cfg, Pcm};
 use crate::util::{catch, hex, ints, Rng};
-use flacenc::bitsink::ByteSink;
+use flacenc::bitsink::{BitSink, ByteSink};
 use flacenc::component::{BitRepr, Stream};
 use flacenc::error::{SourceError, Verify};
 use flacenc::source::{Context, Fill, FrameBuf, MemSource, Source};
@@ -69,10 +69,73 @@ impl Source for TestSource {
     }
 }
 
+/// Upper bound on what the harness is willing to materialise for one stream (a defective encoder can
+/// emit gigabyte frames: such a witness must be reported, not suffered).
+pub const MAX_STREAM_BYTES: usize = 96 << 20;
+
+/// A sink that refuses to grow beyond `MAX_STREAM_BYTES`.
+pub struct CapSink {
+    pub inner: ByteSink,
+}
+
+#[derive(Debug)]
+pub struct CapExceeded;
+impl std::fmt::Display for CapExceeded {
+    fn fmt(&self, f: &mut std::fmt::Formatter<'_>) -> std::fmt::Result {
+        write!(f, "output exceeds the harness cap")
+    }
+}
+impl std::error::Error for CapExceeded {}
+
+impl CapSink {
+    fn check(&self, extra_bits: usize) -> Result<(), CapExceeded> {
+        if (self.inner.len() + extra_bits) / 8 > MAX_STREAM_BYTES {
+            Err(CapExceeded)
+        } else {
+            Ok(())
+        }
+    }
+}
+
+impl flacenc::bitsink::BitSink for CapSink {
+    type Error = CapExceeded;
+    fn align_to_byte(&mut self) -> Result<usize, Self::Error> {
+        Ok(self.inner.align_to_byte().unwrap())
+    }
+    fn write_bytes_aligned(&mut self, bytes: &[u8]) -> Result<usize, Self::Error> {
+        self.check(bytes.len() * 8 + 8)?;
+        Ok(self.inner.write_bytes_aligned(bytes).unwrap())
+    }
+    fn write_lsbs<T: flacenc::bitsink::Bits>(&mut self, val: T, n: usize) -> Result<(), Self::Error> {
+        self.check(n)?;
+        self.inner.write_lsbs(val, n).unwrap();
+        Ok(())
+    }
+    fn write_msbs<T: flacenc::bitsink::Bits>(&mut self, val: T, n: usize) -> Result<(), Self::Error> {
+        self.check(n)?;
+        self.inner.write_msbs(val, n).unwrap();
+        Ok(())
+    }
+    fn write<T: flacenc::bitsink::Bits>(&mut self, val: T) -> Result<(), Self::Error> {
+        self.check(64)?;
+        self.inner.write(val).unwrap();
+        Ok(())
+    }
+    fn write_zeros(&mut self, n: usize) -> Result<(), Self::Error> {
+        self.check(n)?;
+        self.inner.write_zeros(n).unwrap();
+        Ok(())
+    }
+}
+
+/// Serialises a stream; panics with a recognisable message when the output exceeds the cap (callers
+/// run under `catch`, the record then reports the giant output).
 pub fn stream_bytes(stream: &Stream) -> Vec<u8> {
-    let mut sink = ByteSink::new();
-    stream.write(&mut sink).expect("infallible sink");
-    sink.as_slice().to_vec()
+    let mut sink = CapSink { inner: ByteSink::new() };
+    match stream.write(&mut sink) {
+        Ok(()) => sink.inner.as_slice().to_vec(),
+        Err(_) => panic!("emitted_stream_exceeds_{}_MiB", MAX_STREAM_BYTES >> 20),
+    }
 }
 
 /// Encodes `pcm` in the given mode. Returns the stream or an error kind.
@@ -193,9 +256,11 @@ pub fn oracles(cfg: &Cfg, pcm: &Pcm, stream: &Stream, bytes: &[u8]) -> (String, 
     let mut blocks = vec![];
     for i in 0..stream.frame_count() {
         let f = stream.frame(i).unwrap();
-        let mut sink = ByteSink::new();
-        f.write(&mut sink).unwrap();
-        lens.push(sink.as_slice().len());
+        let mut sink = CapSink { inner: ByteSink::new() };
+        if f.write(&mut sink).is_err() {
+            panic!("emitted_frame_exceeds_{}_MiB", MAX_STREAM_BYTES >> 20);
+        }
+        lens.push(sink.inner.as_slice().len());
         blocks.push(f.block_size());
     }
     let o4 = if lens.is_empty() {
@@ -369,6 +434,16 @@ pub fn generate(seed: u64, cases: usize, max_samples: usize, focus: &str, out: &
         let d: Vec<i32> = (0..4096).map(|t| ((t as f64 * 0.05).sin() * 8000.0) as i32 + r3.range(-256, 256) as i32).collect();
         let p5 = Pcm { channels: 1, bps: 16, rate: 44100, data: d, family: "sine_noise" };
         out(run_record("corpus-f4", &c5, &p5, "st", "mem", true));
+        // quotient sums beyond 2^32: 24-bit impulse train, Rice parameter 0, fixed order 0 only, one-partition
+        // entropy estimate (the cached SIMD quotient sum must not wrap)
+        let mut c6 = Cfg::default();
+        c6.use_lpc = false;
+        c6.fixed_max_order = 0;
+        c6.max_parameter = 0;
+        c6.partitions = 1;
+        let d: Vec<i32> = (0..4096).map(|t| if t % 8 == 0 { 1 << 22 } else { 0 }).collect();
+        let p6 = Pcm { channels: 1, bps: 24, rate: 44100, data: d, family: "dense_impulses" };
+        out(run_record("corpus-quotient-sum-2pow32", &c6, &p6, "st", "mem", true));
     }
     for i in 0..cases {
         let mut cfg = gen::random_valid_cfg(&mut rng);
@@ -382,11 +457,38 @@ pub fn generate(seed: u64, cases: usize, max_samples: usize, focus: &str, out: &
             let len = (i % (2 * bs + 1)).min(max_samples / pcm.channels);
             pcm = gen::pcm(&mut rng, pcm.family, pcm.channels, pcm.bps, pcm.rate, len);
         }
+        if focus == "manyframes" {
+            // frame numbers crossing 127/128, 2047/2048 (coded-number length boundaries): tiny blocks
+            cfg.block_size = *rng.pick(&[32usize, 33]);
+            let all = [126usize, 129, 1023, 1025, 1030, 2047, 2049];
+            let fit: Vec<usize> = all.iter().copied().filter(|f| f * 33 <= max_samples).collect();
+            let frames = *rng.pick(if fit.is_empty() { &all[..1] } else { &fit[..] });
+            let fam = *rng.pick(&["silence", "dc", "sine_small", "near_constant", "impulses"]);
+            let tail = rng.below(cfg.block_size as u64) as usize;
+            let b = *rng.pick(&[8usize, 16]);
+            pcm = gen::pcm(&mut rng, fam, 1, b, pcm.rate, (frames - 1) * cfg.block_size + tail.max(1));
+        }
         if focus == "loud" {
-            let fam = *rng.pick(&["fullscale", "alt_fullscale", "heavy_tail", "loud_silent_mix", "anti_stereo", "white"]);
+            let fam = *rng.pick(&["fullscale", "alt_fullscale", "heavy_tail", "loud_silent_mix", "anti_stereo", "white", "dense_impulses", "dense_impulses", "tone_hf"]);
             let bps = *rng.pick(&[20usize, 24]);
             pcm = gen::pcm(&mut rng, fam, pcm.channels.min(2), bps, pcm.rate, pcm.len());
-            cfg.max_parameter = *rng.pick(&[0usize, 1, 2, 8, 14]);
+            cfg.max_parameter = *rng.pick(&[0usize, 0, 1, 2, 8, 14]);
+            // configurations in which a single candidate decides: no LPC / order-0 fixed predictor only /
+            // a one-partition entropy estimate
+            if rng.chance(40) {
+                cfg.use_lpc = false;
+            }
+            if rng.chance(30) {
+                cfg.fixed_max_order = 0;
+            }
+            if rng.chance(30) {
+                cfg.partitions = 1;
+            }
+            if rng.chance(50) {
+                cfg.block_size = *rng.pick(&[256usize, 1024, 4096, 4096]);
+                pcm = gen::pcm(&mut rng, fam, pcm.channels.min(2), bps, pcm.rate, pcm.len().max(cfg.block_size + 7).min(max_samples / pcm.channels.min(2)));
+                pcm.family = fam;
+            }
         }
         let mode = match i % 8 {
             0 | 1 | 2 | 3 => "st".to_string(),
